@@ -8,6 +8,7 @@ import (
 	"fmt"
 	"math"
 	"os"
+	"regexp"
 	"runtime/debug"
 	"sort"
 	"strconv"
@@ -30,6 +31,7 @@ type c02gen struct {
 	g      *tgen
 	alias  map[*Fld]string // JSON alias (api.key / go.tag); absent = none
 	annot  map[*Fld]string // annotation text printed in the IDL
+	vm     map[*Fld]bool   // api.js_conv
 	mapWay int             // 0 alias (default), 1 field name, 2 both
 	root   *Ty
 	sdesc  map[*Ty]*thrift.StructDescriptor
@@ -49,7 +51,7 @@ func (c *c02gen) oobLookups(keys []c02skey) int {
 var c02AliasAlphabet = []string{"al", "Al", "a.b", "a-b", "x_y", "K", "k1", "key", "QQ", "z9"}
 
 func newC02gen(r *rng) *c02gen {
-	c := &c02gen{r: r, g: newTgen(r.fork()), alias: map[*Fld]string{}, annot: map[*Fld]string{}, sdesc: map[*Ty]*thrift.StructDescriptor{}}
+	c := &c02gen{r: r, g: newTgen(r.fork()), alias: map[*Fld]string{}, annot: map[*Fld]string{}, vm: map[*Fld]bool{}, sdesc: map[*Ty]*thrift.StructDescriptor{}}
 	c.g.maxDepth = 2 + r.intn(3)
 	c.g.maxFields = 2 + r.intn(5)
 	c.g.keyKinds = []thrift.Type{thrift.STRING, thrift.I08, thrift.I16, thrift.I32, thrift.I64, thrift.DOUBLE, thrift.STRING, thrift.I64}
@@ -86,14 +88,30 @@ func newC02gen(r *rng) *c02gen {
 		for _, f := range s.Fields {
 			f.Req = 2 * r.intn(2) // default or optional requiredness only (C16 covers the rest)
 			n++
+			var anns []string
 			if r.chance(30) {
 				a := fmt.Sprintf("%s%d", c02AliasAlphabet[r.intn(len(c02AliasAlphabet))], n)
 				c.alias[f] = a
 				if r.bool() {
-					c.annot[f] = fmt.Sprintf(" (api.key = \"%s\")", a)
+					anns = append(anns, fmt.Sprintf("api.key = \"%s\"", a))
 				} else {
-					c.annot[f] = fmt.Sprintf(" (go.tag = 'json:\"%s\"')", a)
+					anns = append(anns, fmt.Sprintf("go.tag = 'json:\"%s\"'", a))
 				}
+			}
+			// api.js_conv: mostly on the scalar types the native value mapping supports, rarely elsewhere (then every value is an error)
+			sup := false
+			switch f.T.K {
+			case thrift.I08, thrift.I16, thrift.I32, thrift.I64, thrift.DOUBLE:
+				sup = true
+			case thrift.STRING:
+				sup = !f.T.Binary
+			}
+			if (sup && r.chance(20)) || r.chance(2) {
+				c.vm[f] = true
+				anns = append(anns, "api.js_conv = \"true\"")
+			}
+			if len(anns) > 0 {
+				c.annot[f] = " (" + strings.Join(anns, ", ") + ")"
 			}
 		}
 	}
@@ -191,7 +209,11 @@ func (c *c02gen) descFields() []string {
 		out = append(out, fi(len(s.Fields)))
 		for _, f := range s.Fields {
 			ks := c.keys(f)
-			out = append(out, fi(int(f.ID)), fi(f.Req), fi(len(ks)))
+			vm := 0
+			if c.vm[f] {
+				vm = 1
+			}
+			out = append(out, fi(int(f.ID)), fi(f.Req), fi(vm), fi(len(ks)))
 			for _, k := range ks {
 				out = append(out, fs(k))
 			}
@@ -282,6 +304,9 @@ func (c *c02gen) value(t *Ty, depth int) *Val {
 		v.D = c.finiteDouble()
 	case thrift.STRING:
 		v.S = c.str()
+		if r.chance(8) {
+			v.S = []byte([]string{"0", "12", "-7", "1.5", "1e3", "-0", "123456789012345678901234567890"}[r.intn(7)])
+		}
 	case thrift.STRUCT:
 		perm := r.permN(len(t.Fields))
 		for _, i := range perm {
@@ -349,6 +374,7 @@ type c02printer struct {
 	r    *rng
 	sb   []byte
 	opts conv.Options
+	vmOn bool
 	// style knobs (per document)
 	pWs, pEsc, pNum, pNull, pUnknown, pS2I, pNullElem, pDup int
 	pB64Esc                                               int // escape inside base64 / string-number (finding 203)
@@ -357,6 +383,7 @@ type c02printer struct {
 	mutateAt, node int
 	mutKind        int
 	mutated        bool
+	vmNow          bool      // the value being printed is the value of an api.js_conv member and EnableValueMapping is on
 	skeys          []c02skey // every key printed at struct level (declared, null, unknown), with its struct
 }
 
@@ -465,6 +492,10 @@ func (p *c02printer) str(b []byte, pEsc int) {
 	}
 	p.sb = append(p.sb, '"')
 }
+
+var c02NumRe = regexp.MustCompile(`^-?(0|[1-9][0-9]*)(\.[0-9]+)?([eE][+-]?[0-9]+)?$`)
+
+func c02IsNumber(b []byte) bool { return c02NumRe.Match(b) }
 
 func trimZeros(s string) (string, int) {
 	k := 0
@@ -711,10 +742,35 @@ func (p *c02printer) val(v *Val) {
 	t := v.T
 	me := p.node
 	p.node++
+	vmNow := p.vmNow
+	p.vmNow = false
 	if me == p.mutateAt {
 		p.mutated = true
 		p.sb = append(p.sb, p.mutant(t)...)
 		return
+	}
+	if vmNow && !p.canonical {
+		switch t.K {
+		case thrift.I08, thrift.I16, thrift.I32, thrift.I64:
+			if r.chance(50) {
+				if v.I == 0 && r.chance(30) {
+					p.sb = append(p.sb, "\"\""...) // "" = zero value
+				} else {
+					p.sb = append(p.sb, "\""+p.intSpell(v.I)+"\""...)
+				}
+				return
+			}
+		case thrift.DOUBLE:
+			if r.chance(50) {
+				p.sb = append(p.sb, "\""+p.dblSpell(v.D)+"\""...)
+				return
+			}
+		case thrift.STRING:
+			if !t.Binary && c02IsNumber(v.S) && r.chance(70) {
+				p.sb = append(p.sb, v.S...) // a string field takes the lexeme of a bare number
+				return
+			}
+		}
 	}
 	switch t.K {
 	case thrift.BOOL:
@@ -863,6 +919,7 @@ func (p *c02printer) val(v *Val) {
 				p.ws()
 				p.sb = append(p.sb, ':')
 				p.ws()
+				p.vmNow = p.vmOn && p.c.vm[f]
 				if reps == 2 { // the duplicate is written too: keep the node numbering stable by printing the same value canonically
 					save, sn := p.mutateAt, p.node
 					p.mutateAt = -1
@@ -1047,10 +1104,13 @@ func genC02(r *rng, n int) {
 			if r.chance(25) {
 				optBits |= 4 // NoBase64Binary
 			}
-			opts := conv.Options{DisallowUnknownField: optBits&1 != 0, String2Int64: optBits&2 != 0, NoBase64Binary: optBits&4 != 0}
+			if r.chance(30) {
+				optBits |= 8 // EnableValueMapping
+			}
+			opts := conv.Options{DisallowUnknownField: optBits&1 != 0, String2Int64: optBits&2 != 0, NoBase64Binary: optBits&4 != 0, EnableValueMapping: optBits&8 != 0}
 			cv := j2t.NewBinaryConv(opts)
 			val := c.value(c.root, 0)
-			p := &c02printer{c: c, r: r.fork(), opts: opts, mutateAt: -1}
+			p := &c02printer{c: c, r: r.fork(), opts: opts, vmOn: optBits&8 != 0, mutateAt: -1}
 			switch r.intn(5) {
 			case 0: // canonical
 				p.canonical = true
